@@ -20,6 +20,8 @@ import Driver.ExitStackEnter
 import Driver.CloseBusy
 import Driver.AwaitifyReuse
 import Driver.CachedPropertyHandoff
+import Driver.BorrowSend
+import Driver.AdaptersFail
 import Driver.Tools
 open Lean
 
@@ -40,6 +42,8 @@ def dispatch (j : Json) : Except String Json := do
   | "closebusy" => Drv.CloseBusy.run j
   | "awaitifyreuse" => Drv.AwaitifyReuse.run j
   | "cachedpropertyhandoff" => Drv.CachedPropertyHandoff.run j
+  | "borrowsend" => Drv.BorrowSend.run j
+  | "adaptersfail" => Drv.AdaptersFail.run j
   | "tool" => Drv.Tools.run j
   | "contextmanager" => Drv.ContextManager.run j
   | "adapters" => Drv.Adapters.run j
